@@ -1,8 +1,8 @@
 SPECIFICATION Spec
 CONSTANTS
-  N = 4
-  Mode = "single"
-  Vals = {1, 2, 3}
+  N = 5
+  Mode = "average"
+  Vals = {1, 2}
 INVARIANTS
   SizesAddUp
   TreeShape
